@@ -417,6 +417,8 @@ class MonC10(Monitor):
                     int(s.n_like)))
             self.base_n_like = int(s.n_like)
             self.base_rows = REC.n_rows
+        elif tag == 'restart_fresh':
+            self.last_written = None
         elif tag == 'post_write':
             self.last_written = int(s.n_like)
         elif tag == 'pre_run':
@@ -592,6 +594,9 @@ class MonC12(Monitor):
         def bad(cls, msg, **d):
             world.violate('C12', cls, msg + ' at ' + tag, **d)
 
+        if tag == 'restart_fresh':
+            self.attach(world)      # a new computation starts from scratch
+            return
         if tag == 'kill':
             self._sync_valid()
             lost = REC.batch_rows.get(REC.batch, 0)
